@@ -115,6 +115,23 @@ func (ec *evalCtx) specCall(call *ast.CallExpr) Value {
 		}
 		s := scalar(arg(0))
 		return ec.e().inL(s, lang.Name)
+	case "trimLeft", "trimRight", "trimmed":
+		need(1)
+		return App(map[string]string{"trimLeft": "trim.left", "trimRight": "trim.right", "trimmed": "strings.TrimSpace"}[name], SStr, scalar(arg(0)))
+	case "splitJoin":
+		// splitJoin(s, sep, L): assumed fact about strings.Split: if every part of Split(s, sep) is in L
+		// then s is in L (sep L)*   [s == Join(parts, sep)]
+		need(3)
+		s, sep := scalar(arg(0)), scalar(arg(1))
+		lang, ok := call.Args[2].(*ast.Ident)
+		if !ok || !sep.IsStr() {
+			panic(unsupported("splitJoin(s, \"sep\", LANG)"))
+		}
+		parts := splitModel(ec, s, sep).(*SliceV)
+		k := Var(ec.e().fresher.name("part"), SInt)
+		all := Forall([]*Term{k}, Implies(And(Le(Int(0), k), Lt(k, parts.Len)), ec.e().inL(scalar(parts.At(k)), lang.Name)))
+		ec.e().trusted["std:strings.Split (s == Join(Split(s, sep), sep): if every part is in L then s is in L (sep L)*)"] = true
+		return Implies(all, ec.e().inL(s, fmt.Sprintf("SEPLIST_%s_%x", lang.Name, sep.Str)))
 	case "cat":
 		var parts []*Term
 		for i := range call.Args {
